@@ -9,6 +9,119 @@ BASELINE = ("cd /repo && /venv/bin/python -m pytest -ra -q -p no:cacheprovider -
             "--continue-on-collection-errors")
 
 
+CORR = ("tied to /repo's current tree on every run by a correspondence check: the model's executable definitions are evaluated "
+        "inside coqc (vm_compute) on the same generated inputs / histories the implementation ran, and an independent Python "
+        "oracle states the property on the implementation's behaviour")
+TR = ("; additionally the small decision kernels are REGENERATED from the Python source by a fail-closed translator and "
+      "re-proved equal to the model on every run ({})")
+TRUST = ("Trusted: the Coq 8.16.1 kernel and vm_compute (no native_compute, no extraction, no axioms: every theorem prints "
+         "'Closed under the global context'); the hand-written model (the theorems are about the model; the code is tied to it by "
+         "the correspondence check on the inputs explored{}); the harness (generators, observers that read serif's private "
+         "attributes, term printers, oracle). ")
+TEXTS = {
+ "C01": ("theorems (all finite histories over any number of live objects, by induction over the operation list of the heap model): "
+         "a write through a handle changes only that object and the table holding it (frame), producers change no existing object, a "
+         "refused or failed vector write changes nothing, columns belong to exactly one table; " + CORR + " after EVERY step of random "
+         "and planted histories (state-level refinement: values, names, dtypes, storage identities, registry, memos)",
+         TRUST.format("") + "Rows are views, checked by the oracle (held rows) only; element values are None / ints / integral floats.",
+         "Rocq proof: ownership + frame invariants by induction over histories of an executable heap model; state-level refinement check against the implementation"),
+ "C02": ("theorems (all histories of the heap model): every table stays rectangular under every operation, failed ones included; ragged "
+         "input is refused; cells of every new table (copy / selection / stacking / row append) are those of its sources; row views = "
+         "column views; transposing twice gives back the cells; " + CORR + ", plus pure-oracle streams for row append with cells of every "
+         "scalar kind and for every way of constructing a table from columns of equal or unequal lengths",
+         TRUST.format("") + "The rowappend / construct streams are decided by the oracle alone (the model says nothing about bytes cells).",
+         "Rocq proof: rectangularity invariant and cell theorems over the heap model; refinement check + oracle streams"),
+ "C03": ("theorems (all vectors, all programs over a 23-operation alphabet, by induction): vectors typed by inference are truthful; every "
+         "operation that does not re-infer (setitem/promotion, unary, <<, >>, cast, fillna, dropna, copy(new_values), to_object, new, "
+         "getitem, sort, rows, transposes) preserves truthfulness; write-back of any element is accepted and keeps the dtype, and "
+         "conversely; reachable_truthful at full strength; " + CORR + "; a GLOBAL MONITOR (installed in the implementation subprocess "
+         "only) checks every vector returned or mutated while the case streams of all 19 other modules run",
+         TRUST.format("") + "Hypothesis conv_ok: int()/float()/complex()/datetime.combine return an instance of exactly that class.",
+         "Rocq proof: truthfulness invariant by induction over programs; correspondence + global run-time monitor over all other checks' streams"),
+ "C04": ("theorems (all sequences, all (dtype, value) pairs): the inferred dtype depends only on the set of classes present and on whether "
+         "None occurs (order, position of None, repetition are irrelevant), closed form = least upper bound in the kind lattice; promotion "
+         "never narrows, keeps nullability, is idempotent and commutes; " + CORR + " - EXHAUSTIVE on the step functions (26 dtypes x 25 "
+         "value classes, all sequences up to length 3) plus call-site streams (arithmetic incl. kind-leaving operators, joins, aggregates, CSV)"
+         + TR.format("typing.py: promote_with, infer_kind, infer_dtype, validate_scalar - EqTyping.v, 20 theorems incl. the C04 theorems restated for the generated definitions"),
+         TRUST.format(" and the translator") + "Value abstraction: a value is seen through (base kind, exact class?).",
+         "Rocq proof of lattice laws over a model that is also regenerated from typing.py by a translator (equality re-proved each run); exhaustive correspondence on the finite kernel"),
+ "C05": ("theorems (for every scalar operation, all lengths): the i-th element of every binary / reflected / unary result is the scalar "
+         "operation on the i-th operands in the written order; unequal lengths are an error; table arithmetic is the column-wise map / zip; "
+         "broadcast methods apply per element with None staying None; dates + days; " + CORR + " (scalar results computed by Python and "
+         "shipped as lookup tables; every public attribute of str/int/float/bool/date/datetime; equal-but-distinguishable elements; "
+         "read-write-write-read histories; operands with a past)" + TR.format("vector.py / table.py: which operator and operand order each arithmetic dunder uses - EqDispatch.v, 7 theorems"),
+         TRUST.format(" and the translator") + "Scalar semantics are parameters (Section variables), never modelled.",
+         "Rocq proof parametric in the scalar operation; dispatch table regenerated from source and re-proved; differential correspondence with Python's own scalar results"),
+ "C06": ("theorems (all vectors, all None placements): None propagates through every elementwise operation and never raises, comparisons are "
+         "False at None positions with a non-nullable bool result, every reduction is the function of the None-free list (with the empty "
+         "results), len counts None, dropna = select(not isna), fillna replaces exactly the None positions, both report non-nullable; " + CORR
+         + " - exhaustive over None placements of lengths 0..5 for every dtype (plus declared / assigned-None / lived-in vectors)",
+         TRUST.format("") + "mean/stdev arithmetic on floats is a parameter compared with a tolerance.",
+         "Rocq proof over the None-handling model; correspondence exhaustive over None placements"),
+ "C07": ("theorems (all vectors/tables, all keys): v[i], v[slice] = Python list slicing for every start/stop/step (slice_length correct, "
+         "positions valid), masks keep exactly the True positions, wrong lengths are errors, comparisons are elementwise; on tables the "
+         "same row selection on every column, missing columns are errors, rows and columns commute; " + CORR + " - exhaustive slice box "
+         "(n <= 7, bounds -9..9, steps -4..4) on vectors and tables" + TR.format("typeutils.slice_length - EqSlice.v, 3 theorems"),
+         TRUST.format(" and the translator") + "CPython's slice adjustment is transcribed in Spec/PySlice.v and validated exhaustively on the box.",
+         "Rocq proof against a transcription of PySlice_AdjustIndices; exhaustive correspondence on a slice box; slice_length regenerated from source"),
+ "C08": ("theorems (state-and-error model of __setitem__, every failure point): a successful write gives Python list-assignment contents, "
+         "same length and name, the dtype is the fold of promotions over the values with existing elements converted; incompatible values "
+         "are rejected; ANY failure leaves the state exactly as it was (atomicity); table writes delegate per column on the addressed cells; "
+         "rename_columns simulation = application (atomic); " + CORR + " as FAULT ENUMERATION: iterables raising after k items, bad index / "
+         "bad value at every position, None and widening in one write, self-keyed table writes" + TR.format("typing.py - EqTyping.v"),
+         TRUST.format(" and the translator") + "A multi-column table write that fails in column j keeps columns < j (reading note in DESIGN.md).",
+         "Rocq proof in a state-and-error monad (atomicity = state at the failure point is the initial state); fault-enumerating correspondence"),
+ "C12": ("theorems (all tables, any number of key columns): groups are the distinct key tuples in first-appearance order with ascending "
+         "rows; every built-in aggregate is the textbook function of the group's non-None values in row order, with the empty results; a "
+         "custom function is called once per group in order with the raw values; whole-column reductions = aggregating one group; " + CORR
+         + " under 3 hash seeds (hash-colliding keys, look-alike column names, named external vectors, prior-call histories)",
+         TRUST.format("") + "dict == insertion-ordered association list; float arithmetic of mean/stdev is a parameter (tolerance 1e-9).",
+         "Rocq proof: partition-index lemma + refinement of the grouping algorithm to filter-based spec; differential correspondence"),
+ "C13": ("theorems: window keeps the row count and order, reproduces the key columns, and gives row i the aggregate of the group of key i "
+         "(= aggregate joined back); " + CORR + " (window and aggregate run on the same inputs; prior-call histories)",
+         TRUST.format(""), "Rocq proof: window = aggregate expanded to rows; differential correspondence against aggregate"),
+ "C14": ("theorems (any number of keys, every direction / na_last combination): the result is a permutation, strongly sorted for the "
+         "lexicographic order of the keys each in its direction with ties in input order (stability), that order determines the result "
+         "uniquely, None placement is independent of direction, sorting is idempotent, Vector.sort_by obeys the same contract; " + CORR
+         + TR.format("Table.sort_by step 5 and Vector.sort_by (None flag, key = (flag, value), stable passes last-to-first) - EqSort.v, 13 theorems"),
+         TRUST.format(" and the translator") + "list.sort is stable and reverse=True keeps the order of equal elements (assumed of CPython).",
+         "Rocq proof: stable insertion-sort lemma lifted over the key list; sort kernel regenerated from source and re-proved; exhaustive small tables + random"),
+ "C15": ("theorems (all histories, EVERY identity choice of the allocator incl. reuse of freed identities, every placement of collection): "
+         "the registry's live view is exactly the sharing relation in every reachable state; a write is refused only while another live "
+         "object holds the same non-empty storage, exactly characterised; sole owners are always writable; no write leaks; derived vectors "
+         "and the columns of every new table own fresh storage (step_d) and are writable at once; " + CORR + " after every step of random and "
+         "planted histories with explicit collection schedules; the oracle finds sharers through gc.get_objects()",
+         TRUST.format("") + "Weak references die exactly at collection; id() of a live object is unique (CPython).",
+         "Rocq proof: registry invariant by induction over histories with the allocator's identity choices as inputs; state-level refinement check"),
+ "C16": ("theorems (all histories): every memo equals the fingerprint of the current contents (vectors and tables) after any write path, "
+         "so fingerprint() = that of a fresh object; read-only operations keep it; a write between values with hashes different mod 2^61-1 "
+         "changes it, order matters; the unconditional sensitivity statement is REFUTED by a witness (known finding KF1); " + CORR
+         + TR.format("_FP_P, _FP_B, the rolling loop, the None/NaN constants, the memo protocol - EqFingerprint.v, 25 theorems incl. gcd(B,P)=1 re-proved on the generated constants"),
+         TRUST.format(" and the translator") + "hash() is a parameter given exactly for ints / integral floats.",
+         "Rocq proof: memo-coherence invariant + number-theoretic sensitivity (Gauss); fingerprint kernel regenerated from source; refinement check with planted histories"),
+ "C17": ("theorems (all name lists, all rename/replace/append histories): sanitised accessors are valid identifiers, never reserved, "
+         "pairwise distinct, follow the documented rules, and each resolves (attribute, row attribute, item-assignment key, replacement) to "
+         "its own position; dir() and the repr dot row list exactly them; string indexing finds the first occurrence; the map is fresh "
+         "whenever it is consulted; " + CORR + " (class-exhaustive sanitiser strings, all duplication patterns up to width 4, planted "
+         "rename-then-use histories, zero-row tables)",
+         TRUST.format("") + "str.lower() and the regex character classes are validated over the BMP (thorough tier).",
+         "Rocq proof over a character-class model of the sanitiser and a history model of the accessor-map cache; differential correspondence"),
+ "C18": ("theorems: arithmetic and comparisons give unnamed vectors; copy/slice/mask/index/sort/setitem/promotion keep the name; table-scalar "
+         "keeps names, table-table keeps a left name iff the right is absent or equal; construction, >>, selections, sorts, joins keep "
+         "stored names in order; aggregate/window names follow <sanitised column>_<function> made unique by least numeric suffixes; the "
+         "name of any composed expression is computed compositionally; " + CORR
+         + TR.format("_resolve_binary_name, the uniquify helpers and name builders of aggregate/window - EqNames.v + EqAggNames.v, 13 theorems"),
+         TRUST.format(" and the translator"), "Rocq proof over an expression language of names; naming kernels regenerated from source; random expression trees"),
+ "C19": ("theorems (all record lists): one column per header cell named verbatim, one row per record, cell (i, j) = conversion of the "
+         "record's cell or None when the record is short, excess cells ignored, dtypes by inference, empty inputs give empty tables "
+         "(row count holds whenever the header has a cell: refuted otherwise, by design of 'one column per header cell'); " + CORR
+         + " as a round trip through csv.writer (delimiters, quoting, CR/LF, path vs file object, look-alike numerals)"
+         + TR.format("_infer_type - EqCsv.v, 5 theorems"),
+         TRUST.format(" and the translator") + "The lexical layer is csv.reader's (csv.reader o csv.writer = id assumed).",
+         "Rocq proof over the record-list model; cell conversion regenerated from source; round-trip correspondence"),
+}
+
+
 def main():
     props = [json.loads(l) for l in (VERIF / "properties.jsonl").read_text().splitlines() if l.strip()]
     checks, na, served = [], [], []
@@ -33,14 +146,11 @@ def main():
             "engine": "rocq-model+correspondence",
             "level_claimed": {
                 "category": "proof",
-                "text": getattr(mod, "LEVEL_TEXT", "theorems about a hand-written Gallina model, tied to the code by a correspondence check"),
+                "text": getattr(mod, "LEVEL_TEXT", None) or TEXTS.get(pid, ("theorems about a hand-written Gallina model, " + CORR,))[0],
                 "design_ref": getattr(mod, "DESIGN_REF", "DESIGN.md section 4"),
             },
-            "level_note": getattr(mod, "LEVEL_NOTE",
-                                  "Trusted: Coq 8.16.1 kernel and vm_compute; the hand-written model; the harness "
-                                  "(generators, observers, term printers). The theorems are about the model; the code "
-                                  "is tied to it only by the correspondence check on the inputs explored."),
-            "technique": getattr(mod, "TECHNIQUE", "Rocq (Coq 8.16) proof over an executable model + differential correspondence check (vm_compute case files)"),
+            "level_note": (TEXTS[pid][1] if pid in TEXTS else getattr(mod, "LEVEL_NOTE", TRUST.format(""))),
+            "technique": (TEXTS[pid][2] if pid in TEXTS else getattr(mod, "TECHNIQUE", "Rocq (Coq 8.16) proof over an executable model + differential correspondence check (vm_compute case files)")),
         })
     man = {
         "version": 1,
